@@ -183,9 +183,7 @@ def evalChain (kv : List (String × String)) : Option String := do
     | some ch => engineUnderTest (ch.map (·.nc)) (seenNames carrier n)
   let coded := codedOn engInts
   let why := fun (l : List Level) =>
-    if carrier = .extension then "extsan"
-    else if icFirst && codedOn ints ≠ .allow then "icfirst"
-    else why l
+    if carrier = .extension then "extsan" else why l
   match v with
   | .nc =>
     -- the property: a name outside the constraints must not be signed (403, or the 500 of an
